@@ -231,6 +231,6 @@ def run(ctx: Ctx):
         "NOT decided: shapes equal the input's mode sizes and requested ranks; orthonormality; TT-SVD left-orthogonality; 'weights all ones otherwise'",
     )
     DRIVERS[D + "_cmtf_als.coupled_matrix_tensor_3d_factorization"].setdefault("normalize", ("normalize_factors", "cp_normalize"))
-    normalise_on_exit(ctx)
-    returns_validated(ctx)
-    core_in_sync(ctx)
+    ctx.guarded(normalise_on_exit, ctx)
+    ctx.guarded(returns_validated, ctx)
+    ctx.guarded(core_in_sync, ctx)
